@@ -609,7 +609,101 @@ Section CommitProofs.
       destruct (pmem p (ng_matches r)) eqn:Mm; [|reflexivity].
       rewrite (wf_matches_sound g WF r p Hr Ar Mm) in Mp. discriminate.
   Qed.
+
+  (* the statement list of the hand-modelled shape runs to exactly watch_commit_gen *)
+  Lemma run_commit_base ao g U D :
+    run_commit rest on_action on_nglob_change hash_fs matches universe (base_program ao) g U D
+    = watch_commit_gen rest on_action on_nglob_change hash_fs matches universe ao g U D.
+  Proof.
+    unfold run_commit, watch_commit_gen, base_program.
+    cbn [exec_prog exec_stmt cs_old cs_g cs_U cs_D cs_new cs_set].
+    destruct (run_jobs rest on_action hash_fs (watch_jobs_gen rest ao g U D) g) as [g1|]; [|reflexivity].
+    cbn [exec_prog exec_stmt cs_old cs_g cs_U cs_D cs_new cs_set].
+    destruct (overlap D (filter (fun p => negb (pruned hash_fs (g_files g) ao p)) U)); reflexivity.
+  Qed.
+
+  (* ---- the decidable hypotheses are sound ---- *)
+  Lemma ofh_eqb_eq a b : ofh_eqb a b = true -> a = b.
+  Proof.
+    destruct a as [x|], b as [y|]; cbn; intros H; try discriminate; [|reflexivity].
+    apply N.eqb_eq in H. subst. reflexivity.
+  Qed.
+
+  Lemma nodup_b_sound l : nodup_b l = true -> NoDup l.
+  Proof.
+    induction l as [|p l IH]; cbn; intros H; [constructor|].
+    apply andb_true_iff in H as [H1 H2]. constructor; [|apply IH; exact H2].
+    intros Hin. apply pmem_In in Hin. rewrite Hin in H1. discriminate.
+  Qed.
+
+  Lemma wf_b_sound g : wf_b rest matches g = true -> WellFormed g.
+  Proof.
+    unfold wf_b. intros H. apply andb_true_iff in H as [H H3]. apply andb_true_iff in H as [H1 H2].
+    constructor.
+    - apply nodup_b_sound. exact H1.
+    - intros f Hf Att E. rewrite forallb_forall in H2. specialize (H2 f Hf).
+      rewrite Att, E in H2. cbn in H2. discriminate.
+    - intros r p Hr Ar Mp. rewrite forallb_forall in H3. specialize (H3 r Hr).
+      rewrite Ar in H3. cbn in H3. rewrite forallb_forall in H3. apply H3. apply pmem_In. exact Mp.
+  Qed.
+
+  Lemma du_b_sound g : du_b rest matches g = true -> detached_unmatched g.
+  Proof.
+    unfold du_b. intros H f Hf Att. rewrite forallb_forall in H. specialize (H f Hf).
+    rewrite Att in H. cbn in H. apply negb_true_iff in H. exact H.
+  Qed.
+
+  Lemma covers_b_sound ao g U D :
+    covers_b rest hash_fs exists_fs matches universe ao g U D = true -> Covers ao g U D.
+  Proof.
+    unfold covers_b. intros H.
+    apply andb_true_iff in H as [H H5]. apply andb_true_iff in H as [H H4].
+    apply andb_true_iff in H as [H H3]. apply andb_true_iff in H as [H1 H2].
+    rewrite forallb_forall in H1, H2, H4, H5.
+    constructor.
+    - exact H1.
+    - exact H2.
+    - intros p HU HD. apply negb_true_iff in H3. unfold overlap in H3.
+      assert (existsb (fun q => pmem q D) U = true) as X; [|rewrite X in H3; discriminate].
+      apply existsb_exists. exists p. split; [exact HU|]. apply pmem_In. exact HD.
+    - intros f Hf RS M. specialize (H4 f Hf). rewrite RS, M in H4. cbn in H4. apply ofh_eqb_eq. exact H4.
+    - intros r p Hr Ar Hp Mp. specialize (H5 r Hr). rewrite Ar in H5. cbn in H5.
+      rewrite forallb_forall in H5. specialize (H5 p Hp). rewrite Mp in H5. cbn in H5.
+      apply eqb_prop in H5. exact H5.
+  Qed.
 End CommitProofs.
+
+(* ------------------------------------------------------------------------------------------ *)
+(* why the unchanged re-hashes are pruned from `updated` only                                     *)
+(* ------------------------------------------------------------------------------------------ *)
+
+(* A static file that is a recorded match of a pattern vanished while the build ran: the step that used
+   it recorded the unknown hash (cause FAILED: CONFIRMED -> MISSING, hash cleared), the pattern row still
+   lists it, and the DELETED item of the watcher puts it in `deleted`.  Its re-hash is "unchanged"
+   (unknown = unknown).  A commit that also discards unchanged paths from `deleted` keeps the stale match;
+   the rescan drops it and makes the registering step pending. *)
+Definition p_pd : path := [97].                                         (* "a" *)
+Definition g_pd : gstate unit := mk_g [mk_fnode p_pd true FS_MISSING None] [mk_ng 0 [112] true [p_pd]] tt.
+Definition hash_pd : path -> option fh := fun _ => None.
+Definition exists_pd : path -> bool := fun _ => false.
+Definition any_match : N -> path -> bool := fun _ _ => true.
+Definition prune_both_program : list cstmt :=
+  [CReadOld true; CRehash; CPrune true true; CNglob SetD SetU; CClear].
+
+Lemma prune_deleted_refuted :
+  WellFormed unit any_match g_pd /\
+  Covers unit hash_pd exists_pd any_match [p_pd] true g_pd [] [p_pd] /\
+  run_commit unit (fun _ _ x => x) (fun _ x => x) hash_pd any_match [p_pd] prune_both_program g_pd [] [p_pd]
+  = Some g_pd /\
+  startup_rescan unit (fun _ _ x => x) (fun _ x => x) hash_pd exists_pd any_match [p_pd] g_pd
+  = Some (mk_g [mk_fnode p_pd true FS_MISSING None] [mk_ng 0 [112] true []] tt) /\
+  run_commit unit (fun _ _ x => x) (fun _ x => x) hash_pd any_match [p_pd] (base_program true) g_pd [] [p_pd]
+  = startup_rescan unit (fun _ _ x => x) (fun _ x => x) hash_pd exists_pd any_match [p_pd] g_pd.
+Proof.
+  split; [apply wf_b_sound; vm_compute; reflexivity|].
+  split; [apply covers_b_sound; vm_compute; reflexivity|].
+  vm_compute. repeat split; reflexivity.
+Qed.
 
 (* ------------------------------------------------------------------------------------------ *)
 (* failed steps                                                                                 *)
